@@ -3,6 +3,7 @@ CONSTANTS
   N = 2
   MaxFail = 1
   EnvMode = "async"
+  SignalInside = FALSE
   Overlap = TRUE
   Api1 = "for_each"
   Control1 = FALSE
